@@ -114,6 +114,21 @@ func vfC14Gen(rt *rapid.T) vfC14Case {
 			}
 			return vfVecOp{Op: "remove", ID: id, Vec: vfGenRemovePayload(rt, g)}
 		case w < 64:
+			if len(live) >= 3 && rapid.IntRange(0, 2).Draw(rt, "purge") == 0 {
+				// several removals at once, then a flush: the compaction sees many tombstones
+				op := vfVecOp{Op: "purge"}
+				var keep []uint32
+				for _, id := range live {
+					if rapid.Bool().Draw(rt, "purge_this") {
+						op.IDs = append(op.IDs, id)
+						removed = append(removed, id)
+					} else {
+						keep = append(keep, id)
+					}
+				}
+				live = keep
+				return op
+			}
 			return vfVecOp{Op: "flush"}
 		default:
 			var q []float32
@@ -288,7 +303,103 @@ func vfC14Run(c vfC14Case, ctx *vfCtx) *vfViolation {
 		return w, eps*(w+vfNorm64(q)+vfNorm64(rec)+mag) + 1e-30
 	}
 
+	// placement and code of ONE live vector, against the codebooks / centroids / rows as they are
+	// now: stored vector = preprocessed input, cluster = a nearest one, code = an arg-min codeword
+	checkStored := func(when string, id uint32, vec []float32, vw *vfIVFPQView) *vfViolation {
+		code, okc := vw.Codes[id]
+		st := vw.Stored[id]
+		if !okc || len(code) != c.M || len(st) != dim {
+			return vfFail("%s: id %d is not stored with a code of length M", when, id)
+		}
+		pre := vfRefPreprocess(kind, vec)
+		for d := range st {
+			if math.Abs(float64(st[d])-pre[d]) > eps*(1+math.Abs(pre[d])) {
+				return vfFail("%s: id %d: stored vector is not the preprocessed input at coordinate %d: %v vs %v", when, id, d, st[d], pre[d])
+			}
+		}
+		target := make([]float64, dim)
+		for d := range target {
+			target[d] = float64(st[d])
+			if ivIdx != nil {
+				// the assigned cluster must be a nearest one (by the index's own distance)
+				target[d] -= float64(vw.Centroids[vw.ListOf[id]][d])
+			}
+		}
+		if ivIdx != nil {
+			dist := vfIVFPQDistance(ivIdx)
+			own := dist.Calculate(st, vw.Centroids[vw.ListOf[id]])
+			for ci := range vw.Centroids {
+				if d := dist.Calculate(st, vw.Centroids[ci]); d < own {
+					return vfFail("%s: id %d assigned to cluster %d (centroid distance %v) but centroid %d is nearer (%v)", when, id, vw.ListOf[id], own, ci, d)
+				}
+			}
+		}
+		for m := 0; m < c.M; m++ {
+			if code[m] < 0 || code[m] >= ksub {
+				return vfFail("%s: id %d: code[%d]=%d outside [0,%d)", when, id, m, code[m], ksub)
+			}
+			sub := target[m*c.Dsub : (m+1)*c.Dsub]
+			// squared distance to codeword k and the error a float32 evaluation may carry: every
+			// difference is formed from float32 values of magnitude mag (stored value, coarse
+			// centroid, codeword), so it is off by up to ~2^-22*mag regardless of how small it is
+			d2 := func(k int) (float64, float64) {
+				var s, tol float64
+				for j := range sub {
+					cw := float64(vw.Codebooks[m][k*c.Dsub+j])
+					diff := sub[j] - cw
+					mag := math.Abs(float64(st[m*c.Dsub+j])) + math.Abs(cw)
+					if ivIdx != nil {
+						mag += math.Abs(float64(vw.Centroids[vw.ListOf[id]][m*c.Dsub+j]))
+					}
+					e := 4 * vfEps32 * mag
+					s += diff * diff
+					tol += 2*math.Abs(diff)*e + e*e
+				}
+				return s, tol + 4*float64(c.Dsub)*vfEps32*s + 1e-30
+			}
+			own, ownTol := d2(code[m])
+			for k := 0; k < ksub; k++ {
+				if o, oTol := d2(k); o+oTol < own-ownTol {
+					return vfFail("%s: id %d subspace %d: stored code %d is at squared distance %v but codeword %d is nearer (%v) — not the nearest codeword (nbits=%d)", when, id, m, code[m], own, k, o, c.NBits)
+				}
+			}
+		}
+		return nil
+	}
+	// after a Flush and at the end: the rows of the index are exactly the live vectors (nothing
+	// tombstoned left, nothing resurrected, nothing lost), each still with its own code
+	checkAllStored := func(when string, flushed bool) *vfViolation {
+		vw := view()
+		for id := range vw.Codes {
+			if _, ok := live[id]; !ok && (flushed || !resident[id]) {
+				return vfFail("%s: the index holds a row for id %d, which is not a live vector%s", when, id, map[bool]string{true: " (it was removed before this Flush)", false: ""}[flushed])
+			}
+		}
+		for id, vec := range live {
+			if _, ok := vw.Codes[id]; !ok {
+				return vfFail("%s: live id %d has no row in the index", when, id)
+			}
+			if v := checkStored(when, id, vec, &vw); v != nil {
+				return v
+			}
+		}
+		return nil
+	}
 	for i, op := range c.Ops {
+		if op.Op == "purge" {
+			for _, id := range op.IDs {
+				if _, isLive := live[id]; !isLive {
+					continue
+				}
+				if err := idx.Remove(*NewVectorNodeWithID(id, nil)); err != nil {
+					return vfFail("op %d: Remove(%d) of a live vector failed: %v", i, id, err)
+				}
+				delete(live, id)
+				resident[id] = true
+			}
+			ctx.Class("purge(several removals, then flush)")
+			op.Op = "flush"
+		}
 		switch op.Op {
 		case "add", "add_recon":
 			vec := op.Vec
@@ -328,65 +439,9 @@ func vfC14Run(c vfC14Case, ctx *vfCtx) *vfViolation {
 				return vfFail("op %d: Add(%d): %v", i, op.ID, err)
 			}
 			live[op.ID] = vec
-			// (1) the stored code is an arg-min codeword in every subspace
 			vw := view()
-			code, okc := vw.Codes[op.ID]
-			st := vw.Stored[op.ID]
-			if !okc || len(code) != c.M || len(st) != dim {
-				return vfFail("op %d: id %d not stored with a code of length M after Add", i, op.ID)
-			}
-			pre := vfRefPreprocess(kind, vec)
-			for d := range st {
-				if math.Abs(float64(st[d])-pre[d]) > eps*(1+math.Abs(pre[d])) {
-					return vfFail("op %d: id %d: stored vector is not the preprocessed input at coordinate %d: %v vs %v", i, op.ID, d, st[d], pre[d])
-				}
-			}
-			target := make([]float64, dim)
-			for d := range target {
-				target[d] = float64(st[d])
-				if ivIdx != nil {
-					// the assigned cluster must be a nearest one (by the index's own distance)
-					target[d] -= float64(vw.Centroids[vw.ListOf[op.ID]][d])
-				}
-			}
-			if ivIdx != nil {
-				dist := vfIVFPQDistance(ivIdx)
-				own := dist.Calculate(st, vw.Centroids[vw.ListOf[op.ID]])
-				for ci := range vw.Centroids {
-					if d := dist.Calculate(st, vw.Centroids[ci]); d < own {
-						return vfFail("op %d: id %d assigned to cluster %d (centroid distance %v) but centroid %d is nearer (%v)", i, op.ID, vw.ListOf[op.ID], own, ci, d)
-					}
-				}
-			}
-			for m := 0; m < c.M; m++ {
-				if code[m] < 0 || code[m] >= ksub {
-					return vfFail("op %d: id %d: code[%d]=%d outside [0,%d)", i, op.ID, m, code[m], ksub)
-				}
-				sub := target[m*c.Dsub : (m+1)*c.Dsub]
-				// squared distance to codeword k and the error a float32 evaluation may carry: every
-				// difference is formed from float32 values of magnitude mag (stored value, coarse
-				// centroid, codeword), so it is off by up to ~2^-22*mag regardless of how small it is
-				d2 := func(k int) (float64, float64) {
-					var s, tol float64
-					for j := range sub {
-						cw := float64(vw.Codebooks[m][k*c.Dsub+j])
-						diff := sub[j] - cw
-						mag := math.Abs(float64(st[m*c.Dsub+j])) + math.Abs(cw)
-						if ivIdx != nil {
-							mag += math.Abs(float64(vw.Centroids[vw.ListOf[op.ID]][m*c.Dsub+j]))
-						}
-						e := 4 * vfEps32 * mag
-						s += diff * diff
-						tol += 2*math.Abs(diff)*e + e*e
-					}
-					return s, tol + 4*float64(c.Dsub)*vfEps32*s + 1e-30
-				}
-				own, ownTol := d2(code[m])
-				for k := 0; k < ksub; k++ {
-					if o, oTol := d2(k); o+oTol < own-ownTol {
-						return vfFail("op %d: id %d subspace %d: stored code %d is at squared distance %v but codeword %d is nearer (%v) — not the nearest codeword (nbits=%d)", i, op.ID, m, code[m], own, k, o, c.NBits)
-					}
-				}
+			if v := checkStored(fmt.Sprintf("op %d", i), op.ID, vec, &vw); v != nil {
+				return v
 			}
 		case "add_bad":
 			if err := idx.Add(*NewVectorNodeWithID(op.ID, vfCloneF32(op.Vec))); err == nil {
@@ -410,6 +465,9 @@ func vfC14Run(c vfC14Case, ctx *vfCtx) *vfViolation {
 				return vfFail("op %d: Flush: %v", i, err)
 			}
 			resident = map[uint32]bool{}
+			if v := checkAllStored(fmt.Sprintf("op %d (after Flush)", i), true); v != nil {
+				return v
+			}
 		case "search":
 			if len(op.Vec) != dim || kind == Cosine && vfIsZero(op.Vec) {
 				continue
@@ -558,7 +616,7 @@ func vfC14Run(c vfC14Case, ctx *vfCtx) *vfViolation {
 			ctx.Class("searches")
 		}
 	}
-	return nil
+	return checkAllStored("end of the history", false)
 }
 
 func TestVerif_C14(t *testing.T) { vfCheck(t, "C14", vfC14Gen, vfC14Run) }
